@@ -825,11 +825,17 @@ def laws(rng, tier, ctx):
                         if a != b and bad is None:
                             bad = ('law-remerge', lines + [merge_line(k, pairs), read_line(t, what)],
                                    're-merging version %d changed bi_read(asof=%s, what=%d): %s -> %s' % (j, t, what, a, b))
-            # idempotence for the REST of the history (theorem merge_idem_future): re-merge a version all of whose rows are rows of the
-            # store - also one stamped earlier than the last version -, merge further versions, and compare every read with the history
-            # that was not re-merged
+            # idempotence for the REST of the history (theorems merge_idem_future, merge_idem_future_visible): re-merge a version that is
+            # in the store - also one stamped earlier than the last version -, merge further versions, and compare every read with the
+            # history that was not re-merged
+            # (candidates: versions whose values are NaN or the values visible as of their stamp - theorem merge_idem_future_visible; among
+            # them those whose rows are all rows of the store - merge_idem_future; a repeat row is compressed away and only visible)
             rows = _rows(store)
-            cands = [j for j, (k, pairs) in enumerate(hist) if pairs and all((i, k, v) in rows for i, v in pairs)]
+
+            def visible(k, pairs):
+                vis = _read(store, 2 * k, -1)[0]
+                return all(i in vis and (v is None or vis[i] == v) for i, v in pairs)
+            cands = [j for j, (k, pairs) in enumerate(hist) if pairs and (all((i, k, v) in rows for i, v in pairs) or visible(k, pairs))]
             if cands:
                 j = rng.choice(cands)
                 k, pairs = hist[j]
@@ -844,7 +850,7 @@ def laws(rng, tier, ctx):
                         ra, rb = _read(a, t, what)[0], _read(b, t, what)[0]
                         if ra != rb and bad is None:
                             bad = ('law-remerge-future', lines + [merge_line(k, pairs)] + [merge_line(k2, ps) for k2, ps in later] + [read_line(t, what)],
-                                   're-merging version %d (all its rows are in the store) changed bi_read(asof=%s, what=%d) after %d further merges: %s -> %s'
+                                   're-merging version %d (its values are the ones visible as of its stamp) changed bi_read(asof=%s, what=%d) after %d further merges: %s -> %s'
                                    % (j, t, what, len(later), ra, rb))
             if bad is not None:
                 yield Finding('violation', dict(tag=bad[0], lines=bad[1], atomic=True, ordered=True), bad[2])
